@@ -118,6 +118,7 @@ def run_real_bus(ops):
     core = uros.Core()
     pubs = {"params": core.pub_params}
     inbox = []
+    bufs = {}
     params = []          # (node, name, Param)
     logger = [None]
     out = []
@@ -140,14 +141,22 @@ def run_real_bus(ops):
             elif w[0] == "pub":
                 if w[1] not in pubs:
                     out.append("error no-publisher"); continue
-                m = cls[w[2]](); m.data["time"] = float(w[3])
-                pubs[w[1]].publish(m)
+                # publishers reuse ONE message buffer per topic (as the shipped simulator / estimator nodes do) and keep writing into
+                # it after publishing: whoever keeps a reference instead of a copy sees the scribble, not the published message
+                m = bufs.setdefault((w[1], w[2]), cls[w[2]]()); m.data["time"] = float(w[3])
+                try:
+                    pubs[w[1]].publish(m)
+                finally:
+                    m.data["time"] = 424242.0
             elif w[0] == "decl":
-                p = uros.Param(core, w[2], float(w[3]), "f8"); params.append((int(w[1]), w[2], p))
+                # protocol integers are HALF units: the real value is v/2 — declared as a Python int literal when v is even (as the
+                # shipped nodes do for e.g. mag_decl = 0) and as a float otherwise; values set later are mostly non-integers
+                v = int(w[3])
+                p = uros.Param(core, w[2], (v // 2) if v % 2 == 0 else v / 2.0, "f8"); params.append((int(w[1]), w[2], p))
             elif w[0] == "init":
                 core.init_params()
             elif w[0] == "set":
-                core.set_param(w[1], float(w[2]) / 1024.0 if w[1] == "logger/dt" else float(w[2]))
+                core.set_param(w[1], float(w[2]) / 1024.0 if w[1] == "logger/dt" else float(w[2]) / 2.0)
             elif w[0] == "logger":
                 lg = uros.Logger(core)
                 lg.dt.value = 5.0 / 1024.0     # model's default period (5 units of 1/1024 s), before any broadcast
@@ -156,7 +165,7 @@ def run_real_bus(ops):
                 core.run(until=float(w[1]) / 1024.0)
             elif w[0] == "dump":
                 lg = logger[0]
-                cache = ",".join("%d:%s:%d" % (nd, nm, int(round(p.value))) for (nd, nm, p) in params)
+                cache = ",".join("%d:%s:%d" % (nd, nm, int(round(p.value * 2))) for (nd, nm, p) in params)
                 if lg is not None:
                     v = lg.dt.value
                     cache = (cache + "," if cache else "") + "1000000:logger/dt:%d" % int(round(v * 1024))
@@ -362,15 +371,23 @@ def search(ctx):
             report("bus:log-time", "logger rows are not in non-decreasing time order", {"history": h, "times": ts})
         # one row per logging period: wake-up times follow the CURRENT value of logger/dt
         exp_t = []; nxt = None; per = 5; nowt = 0
+        exp_rows = []; latest = {}; ltopics = set(); advd = set()
         for line, rep in zip(h, real):
             w = line.split()
-            if w[0] == "logger" and rep == "ok": nxt = nowt
+            if w[0] == "adv" and rep == "ok": advd.add(w[1])
+            if w[0] == "logger" and rep == "ok": nxt = nowt; ltopics = set(advd)
+            if w[0] == "pub" and rep == "ok" and nxt is not None and w[1] in ltopics: latest[w[1]] = int(w[3])
             if w[0] == "set" and rep == "ok" and w[1] == "logger/dt": per = int(w[2])
             if w[0] == "run" and rep == "ok":
                 if nxt is not None:
                     while nxt < int(w[1]):
-                        exp_t.append(nxt); nxt += per
+                        exp_t.append(nxt); exp_rows.append(",".join(sorted("%s=%d" % kv for kv in latest.items()))); nxt += per
                 nowt = int(w[1])
+        got_rows = [",".join(sorted(e for e in r.split("|")[1].split(",") if e and not e.startswith("params="))) for r in rows]
+        if ts == exp_t and got_rows != exp_rows:
+            bad = next(i for i, (a, b) in enumerate(zip(got_rows, exp_rows)) if a != b)
+            report("bus:log-latest", "a logger row does not hold the latest published message of every topic (publishers reuse and keep writing their buffer)",
+                   {"history": h, "row": bad, "row_time": ts[bad], "logged": got_rows[bad], "expected": exp_rows[bad]}, obligation="theorem:C20.tick_row")
         if ts != exp_t:
             report("bus:log-period", "logger rows are not one per logging period (the current logger/dt)", {"history": h, "row_times": ts[:80], "expected": exp_t[:80]},
                    obligation="theorem:C20.tick_row")
